@@ -596,9 +596,9 @@ compact_theta_sketch_alloc<A> compact_theta_sketch_alloc<A>::deserialize_v1(
   const auto theta = read<uint64_t>(is);
   if (!is.good()) throw std::runtime_error("error reading from std::istream");
   checker<true>::check_num_entries(num_entries);
-  std::vector<uint64_t, A> entries(num_entries, 0, allocator);
+  std::vector<uint64_t, A> entries(allocator);
   bool is_empty = (num_entries == 0) && (theta == theta_constants::MAX_THETA);
-  if (!is_empty) read(is, entries.data(), sizeof(uint64_t) * entries.size());
+  if (!is_empty) read_in_chunks(is, entries, num_entries);
   if (!is.good()) throw std::runtime_error("error reading from std::istream");
   return compact_theta_sketch_alloc(is_empty, true, seed_hash, theta, std::move(entries));
 }
@@ -620,11 +620,11 @@ compact_theta_sketch_alloc<A> compact_theta_sketch_alloc<A>::deserialize_v2(
     read<uint32_t>(is); // unused
     if (!is.good()) throw std::runtime_error("error reading from std::istream");
     checker<true>::check_num_entries(num_entries);
-    std::vector<uint64_t, A> entries(num_entries, 0, allocator);
+    std::vector<uint64_t, A> entries(allocator);
     if (num_entries == 0) {
       return compact_theta_sketch_alloc(true, true, seed_hash, theta_constants::MAX_THETA, std::move(entries));
     }
-    read(is, entries.data(), entries.size() * sizeof(uint64_t));
+    read_in_chunks(is, entries, num_entries);
     if (!is.good()) throw std::runtime_error("error reading from std::istream");
     return compact_theta_sketch_alloc(false, true, seed_hash, theta_constants::MAX_THETA, std::move(entries));
   } else if (preamble_longs == 3) {
@@ -634,12 +634,12 @@ compact_theta_sketch_alloc<A> compact_theta_sketch_alloc<A>::deserialize_v2(
     if (!is.good()) throw std::runtime_error("error reading from std::istream");
     checker<true>::check_num_entries(num_entries);
     bool is_empty = (num_entries == 0) && (theta == theta_constants::MAX_THETA);
-    std::vector<uint64_t, A> entries(num_entries, 0, allocator);
+    std::vector<uint64_t, A> entries(allocator);
     if (is_empty) {
       if (!is.good()) throw std::runtime_error("error reading from std::istream");
       return compact_theta_sketch_alloc(true, true, seed_hash, theta, std::move(entries));
     } else {
-      read(is, entries.data(), sizeof(uint64_t) * entries.size());
+      read_in_chunks(is, entries, num_entries);
       if (!is.good()) throw std::runtime_error("error reading from std::istream");
       return compact_theta_sketch_alloc(false, true, seed_hash, theta, std::move(entries));
     }
@@ -670,8 +670,8 @@ compact_theta_sketch_alloc<A> compact_theta_sketch_alloc<A>::deserialize_v3(
   }
   if (!is.good()) throw std::runtime_error("error reading from std::istream");
   checker<true>::check_num_entries(num_entries);
-  std::vector<uint64_t, A> entries(num_entries, 0, allocator);
-  if (!is_empty) read(is, entries.data(), sizeof(uint64_t) * entries.size());
+  std::vector<uint64_t, A> entries(allocator);
+  if (!is_empty) read_in_chunks(is, entries, num_entries);
   const bool is_ordered = flags_byte & (1 << flags::IS_ORDERED);
   if (!is.good()) throw std::runtime_error("error reading from std::istream");
   return compact_theta_sketch_alloc(is_empty, is_ordered, seed_hash, theta, std::move(entries));
@@ -700,17 +700,21 @@ compact_theta_sketch_alloc<A> compact_theta_sketch_alloc<A>::deserialize_v4(
   if (!is.good()) throw std::runtime_error("error reading from std::istream");
   checker<true>::check_num_entries(num_entries);
   vector_bytes buffer(entry_bits, 0, allocator); // block of 8 entries takes entry_bits bytes
-  std::vector<uint64_t, A> entries(num_entries, 0, allocator);
+  // the vector grows as the blocks arrive, so that a count the stream cannot back fails before a large allocation
+  std::vector<uint64_t, A> entries(allocator);
 
   // unpack blocks of 8 deltas
   unsigned i;
   for (i = 0; i + 7 < num_entries; i += 8) {
     read(is, buffer.data(), buffer.size());
+    if (!is.good()) throw std::runtime_error("error reading from std::istream");
+    entries.resize(i + 8, 0);
     unpack_bits_block8(&entries[i], buffer.data(), entry_bits);
   }
   // unpack extra deltas if fewer than 8 of them left
   if (i < num_entries) read(is, buffer.data(), whole_bytes_to_hold_bits((num_entries - i) * entry_bits));
   if (!is.good()) throw std::runtime_error("error reading from std::istream");
+  entries.resize(num_entries, 0);
   const uint8_t* ptr = buffer.data();
   uint8_t offset = 0;
   for (; i < num_entries; ++i) {
